@@ -38,3 +38,8 @@ chk("C05", "model_checking",
     "Six 2-4 thread scenarios (conflicting first use, fork race from one old size, growth vs refresh, different logs, fork race + later growth, two writers) are explored on the in-memory store at storage-operation and lock granularity and on SQLite with the production one-connection pool: every schedule up to preemption bound 2 (quick; 3 for two threads) / 4, 3 and unbounded (thorough). Every complete execution's call/return history plus final reads must be linearizable w.r.t. the protocol model with the property's one exception, reads must be monotone, and no schedule may deadlock. A supplementary free-running -race pass looks for unsynchronised accesses.",
     "Scheduling points are storage/lock operations, not arbitrary memory accesses. Executions beyond the reported preemption bound are not covered. The race pass is sampling and not the deciding step.",
     "DESIGN.md §5 C05, §4.2")
+chk("C06", "fault_enumeration",
+    "exhaustive crash-point enumeration: SIGKILL before and after every SQL-driver operation and at file-syscall entries (strace injection) of scripted histories on file-backed SQLite; a fresh process reopens and is judged against acknowledgements",
+    "For two histories (one log: first use/growth/refresh; two logs interleaved with refused forks) the worker process is killed before and after every one of the ~112 database/sql driver operations and on entry to every reachable file syscall on the database and its journal; a fresh process reopens the store (SQLite recovery), reports the state and probes the restarted witness. Oracle: stored rows are complete valid cosigned checkpoints; in-flight log holds the last acknowledged or the being-written checkpoint, other logs exactly the last acknowledged one; forks still refused, growth accepted.",
+    "Process kill, not power loss (no torn sectors, no lost un-fsynced data). strace's injection counter cannot address syscalls on the journal fd before its path resolves, so about a quarter of the syscall boundaries (journal-only writes before the database file is touched) are covered only at driver-operation granularity; the number reached is in the evidence.",
+    "DESIGN.md §5 C06, §4.3")
